@@ -1,0 +1,3 @@
+// Package verifexport re-exports internal packages to the external verification
+// harness. It is empty unless built with the "verif" build tag.
+package verifexport
